@@ -150,6 +150,19 @@ Theorem C03_mesh_support_partial : forall fuel (T : Pose R) vs conn shortcuts fi
 Proof. exact mesh_support_partial. Qed.
 Print Assumptions C03_mesh_support_partial.
 
+(** PARTIAL, weaker hypothesis.  [LocalMaxGlobal] fails for meshes with a vertex in the interior
+    of a flat face (for the direction opposite to the face normal such a vertex has no better
+    neighbour although it is the global minimum); the code's shortcut pass moves away from it.
+    [LocalMaxGlobalS] only asks local maxima that are at least as good as every shortcut vertex
+    (up to 10*eps) to be global up to [delta]; it is implied by [LocalMaxGlobal] and is what the
+    check evaluates exactly for every generated mesh and direction. *)
+Theorem C03_mesh_support_shortcuts_partial : forall fuel (T : Pose R) vs conn shortcuts first_idx (d : V3R) idx p delta,
+  mesh_query fuel T vs conn shortcuts first_idx d = Some (idx, p) ->
+  LocalMaxGlobalS (mulTV (rot T) d) vs conn shortcuts delta ->
+  hull_set T vs p /\ forall x, hull_set T vs x -> dot x d <= dot p d + delta.
+Proof. exact mesh_support_shortcuts_partial. Qed.
+Print Assumptions C03_mesh_support_shortcuts_partial.
+
 (** "the answer does not depend on earlier queries": two different cached start vertices
     give support values that differ by at most [delta] (same hypothesis as above) *)
 Theorem C03_mesh_history_independent_partial :
